@@ -1,4 +1,6 @@
 import GnpyModel.Xls
+import Mathlib.Data.List.Nodup
+import Mathlib.Data.List.Pairwise
 /- helper lemmas for the workbook converter (C20) -/
 namespace Gnpy.Xls
 
@@ -67,5 +69,18 @@ theorem fiberLink_mem (links : List Link) (src dst : String) (nm : Name)
     split at h
     · left; simp only [pure_ok] at h; exact h.symm
     · right; simp only [pure_ok] at h; exact h.symm
+
+/-- names of the results of a successful `mapM` -/
+theorem mapM_ok_map {ε α β γ : Type} (f : α → Except ε β) (g : β → γ) (h : α → γ)
+    (hfg : ∀ x y, f x = .ok y → g y = h x) :
+    ∀ (l : List α) (r : List β), l.mapM f = .ok r → r.map g = l.map h
+  | [], r, hm => by
+    simp [List.mapM_nil, pure, Except.pure] at hm
+    subst hm; rfl
+  | a :: as, r, hm => by
+    rw [List.mapM_cons] at hm
+    simp only [bind_ok, pure_ok] at hm
+    obtain ⟨y, hy, ys, hys, rfl⟩ := hm
+    simp [hfg a y hy, mapM_ok_map f g h hfg as ys hys]
 
 end Gnpy.Xls
